@@ -95,11 +95,28 @@ def _emit(ctx, desc):
         ctx.fail("divergence", sig, {**desc, "schedule": d}, f"dump differs from the ascending baseline under {d}")
 
 
-def graph_harness(E, ctx, aux):
-    d = realise_s1(E, aux)
-    desc = {"kind": "graph", "names": d["names"], "succ": d["succ"]}
-    ctx.current = desc
-    _emit(ctx, desc)
+# name schemes: names without any digit, and names that share their trailing number pairwise (orderings "by index" or
+# "by length" have ties on them; a tie leaves set order, i.e. hash order, in charge)
+NAME_SCHEMES = {
+    "words": ["entry", "header", "body", "latch", "tail", "exit"],
+    "shared-index": ["a_0", "b_0", "a_1", "b_1", "a_2", "b_2"],
+}
+
+
+def graph_harness_for(scheme=None):
+    def graph_harness(E, ctx, aux):
+        d = realise_s1(E, aux)
+        names, succ = d["names"], d["succ"]
+        if scheme:
+            m = dict(zip(names, NAME_SCHEMES[scheme]))
+            names, succ = [m[n] for n in names], [[m[t] for t in s_] for s_ in succ]
+        desc = {"kind": "graph", "names": names, "succ": succ}
+        ctx.current = desc
+        _emit(ctx, desc)
+    return graph_harness
+
+
+graph_harness = graph_harness_for()
 
 
 def src_harness_for(factory, kind):
@@ -146,9 +163,10 @@ def extra_harness(E, ctx, aux):
 def jobs(tier):
     from vf.props.C09 import EXTRA_SOURCES
 
-    def gj(name, N, entry=None, max_edges=None, budget=900, required=True, require_edges=None):
-        return Job(name, lambda: s1_space(N, entry=entry, max_edges=max_edges, require_edges=require_edges), graph_harness,
+    def gj(name, N, entry=None, max_edges=None, budget=900, required=True, require_edges=None, features=None, scheme=None):
+        return Job(name, lambda: s1_space(N, entry=entry, max_edges=max_edges, require_edges=require_edges, features=features), graph_harness_for(scheme),
                    bounds={"space": "S1", "blocks": N, "entry": "any" if entry is None else f"b{entry}", "max_edges": max_edges, "required_edges": require_edges,
+                           "required_shape_features": features, "names": NAME_SCHEMES[scheme][:N] if scheme else f"b0..b{N-1}",
                            "schedules": "every single-event perturbation + global reversal"}, budget_s=budget, required=required)
 
     def pj(name, factory, depth, kind, bounds, budget=900, required=True):
@@ -160,10 +178,15 @@ def jobs(tier):
         return z3.And(i >= 0, i < len(EXTRA_SOURCES) + len(MORE_SOURCES)), [i], {"i": i}
 
     js = [gj("S1-N3-all-entries", 3), gj("S1-N4-all-entries", 4)]
+    js.append(gj("S1-N4-entry-b0-names-without-digits", 4, 0, scheme="words"))
+    js.append(gj("S1-N4-entry-b0-names-sharing-an-index", 4, 0, scheme="shared-index"))
+    # a loop with two headers reached from two different entry blocks (needs 5 blocks): the solver supplies exactly those graphs
+    js.append(gj("S1-N5-entry-b0-two-headers-two-entries-le6-edges", 5, 0, max_edges=6, features={"headers": 2, "entries": 2}))
     js.append(pj("source-S2-ctl-c1", lambda ch: s2.CtlGen(ch, 1, 2, 1), 3, "source", {"space": "S2-ctl", "compounds<=": 1, "pipeline": "AST2SCFG, restructure, SCFG2AST text"}))
     js.append(Job("hand-written-functions", xspace, extra_harness, bounds={"bytecode_functions": len(EXTRA_SOURCES), "multi_exit_sources_both_front_ends": len(MORE_SOURCES)}, budget_s=600, path_timeout_s=120))
     if tier == "thorough":
         js.append(gj("S1-N5-entry-b0-le6-edges", 5, 0, max_edges=6, budget=2400))
+        js.append(gj("S1-N5-entry-b0-multi-exit-loop-le7-edges", 5, 0, max_edges=7, features={"exit_targets": 2, "exiting": 2, "min_size": 2}, budget=1800, required=False))
         js.append(gj("F6-two-entry-arms-le7-edges", 6, 0, max_edges=7, budget=1200, required=False,
                      require_edges=[(0, 1), (0, 2), (1, 3), (2, 4)]))
         js.append(pj("source-S2-expr-d1", lambda ch: s2.ExprGen(ch, 1, rich_leaves=True), 2, "source", {"space": "S2-expr", "depth<=": 1}, budget=1200))
